@@ -85,4 +85,29 @@ def specResultSSL30 (l : List (BitVec 8)) : List (BitVec 8) × BitVec 8 :=
   then (l.take (l.length - ((l.getD (l.length - 1) 0).toNat + 1)), 255)
   else (l, 0)
 
+/-- The caller, `halfConn.decrypt` (CBC arm), after `CryptBlocks`:
+      if hc.version == VersionSSL30 { payload, paddingGood = removePaddingSSL30(payload) }
+      else                          { payload, paddingGood = removePadding(payload) }
+      …  if len(payload) < macSize { return false }
+      n := len(payload) - macSize;  localMAC := MAC(seq, header(n), payload[:n])
+      if localMAC ≠ payload[n:] || paddingGood != 255 { return false }
+    The harness hook places the genuine MAC of `P[:n]` (header length `n`) at `P[n:n+20]`, so the MAC
+    comparison succeeds exactly when the unpadder leaves `n + 20` bytes (assumption: HMAC-SHA1 does not
+    collide on the other splits).  Result: (accepted, application payload length). -/
+def macSize : Nat := 20
+
+def unpadFor (vers : Nat) (P : List (BitVec 8)) : List (BitVec 8) × BitVec 8 :=
+  if vers = 0x0300 then removePaddingSSL30 P else removePadding P
+
+def verdictOf (r : List (BitVec 8) × BitVec 8) (n : Nat) : Bool × Nat :=
+  if r.1.length < macSize then (false, 0)
+  else if r.1.length - macSize = n ∧ r.2 = 255#8 then (true, n) else (false, 0)
+
+def decryptVerdict (vers n : Nat) (P : List (BitVec 8)) : Bool × Nat := verdictOf (unpadFor vers P) n
+
+def specUnpadFor (vers : Nat) (P : List (BitVec 8)) : List (BitVec 8) × BitVec 8 :=
+  if vers = 0x0300 then specResultSSL30 P else specResult P
+
+def specDecrypt (vers n : Nat) (P : List (BitVec 8)) : Bool × Nat := verdictOf (specUnpadFor vers P) n
+
 end BfeVerif.C43
